@@ -858,3 +858,103 @@ Proof.
   destruct (present g) as [|p0 pr] eqn:E; [simpl; lra|].
   field. apply not_0_INR. simpl; lia.
 Qed.
+
+(* ================================================================== *)
+(* 6. whole-output corollaries for flathomogen                          *)
+
+Lemma Forall2_concat {A B} (P : A -> B -> Prop) ls ms :
+  Forall2 (Forall2 P) ls ms -> Forall2 P (concat ls) (concat ms).
+Proof.
+  induction 1 as [|l m ls ms H _ IH]; simpl; [constructor|].
+  apply Forall2_app; assumption.
+Qed.
+
+Lemma Forall2_weaken {A B} (P Q : A -> B -> Prop) l m :
+  (forall a b, P a b -> Q a b) -> Forall2 P l m -> Forall2 Q l m.
+Proof. intros H; induction 1; constructor; auto. Qed.
+
+Lemma Forall2_length {A B} (P : A -> B -> Prop) l m : Forall2 P l m -> length l = length m.
+Proof. induction 1; simpl; congruence. Qed.
+
+Theorem flathomogen_missing_kept maxnan idx xs :
+  length idx = length xs -> (1 <= length xs)%nat ->
+  Forall in_int32 idx -> nondecr idx ->
+  exists out, py_flathomogen RN maxnan idx xs = DOk out /\
+              length out = length xs /\
+              Forall2 (fun x o => x = None -> o = None) xs out.
+Proof.
+  intros Hlen Hpos H32 Hs. eexists. split; [apply flathomogen_spec; assumption|].
+  assert (F : Forall2 (fun x o : option R => x = None -> o = None) xs
+     (concat (map (fun kg => flat_group maxnan (snd kg)) (runs (combine idx xs))))).
+  { rewrite <- (map_snd_combine idx xs Hlen) at 1. rewrite <- runs_concat.
+    apply Forall2_concat. generalize (runs (combine idx xs)). intros gs.
+    induction gs as [|kg gs IH]; simpl; constructor; [|exact IH].
+    pose proof (flat_group_pointwise maxnan (snd kg)) as P.
+    eapply Forall2_weaken; [|exact P]. cbv beta. intros x o Hx E. subst x. exact Hx. }
+  split; [symmetry; eapply Forall2_length; exact F|exact F].
+Qed.
+
+Theorem flathomogen_total_conserved maxnan idx xs :
+  length idx = length xs -> (1 <= length xs)%nat ->
+  Forall in_int32 idx -> nondecr idx ->
+  Forall (fun kg => (nmiss (snd kg) <= maxnan)%Z) (runs (combine idx xs)) ->
+  exists out, py_flathomogen RN maxnan idx xs = DOk out /\
+              lsum (present out) = lsum (present xs).
+Proof.
+  intros Hlen Hpos H32 Hs Hm. eexists. split; [apply flathomogen_spec; assumption|].
+  rewrite <- (map_snd_combine idx xs Hlen) at 2. rewrite <- runs_concat.
+  rewrite !present_concat, !lsum_concat, !map_map.
+  f_equal. apply map_ext_in. intros kg Hin. rewrite Forall_forall in Hm.
+  apply flat_group_total, Hm, Hin.
+Qed.
+
+(* ================================================================== *)
+(* 7. the kernel as pinned does NOT meet the specification              *)
+
+Lemma in_int32_small z : (-100 <= z <= 100)%Z -> in_int32 z.
+Proof. unfold in_int32; lia. Qed.
+
+(* max: a group of negative values gives 0 *)
+Lemma pinned_max_run :
+  py_aggregate RN (agg_upd_pinned RN) 2 0 [1; 1]%Z [Some (-1); Some (-2)] = DOk [Some 0].
+Proof.
+  cbv - [Rltb Rplus Rmult Rdiv Rminus Ropp IZR Rinv].
+  rewrite (proj2 (Rltb_false 0 (-1)) ltac:(lra)).
+  rewrite (proj2 (Rltb_false 0 (-2)) ltac:(lra)).
+  reflexivity.
+Qed.
+
+Theorem pinned_max_refuted :
+  exists op maxnan idx xs,
+    length idx = length xs /\ (1 <= length xs)%nat /\ Forall in_int32 idx /\ nondecr idx /\
+    py_aggregate RN (agg_upd_pinned RN) op maxnan idx xs <>
+    DOk (map (fun kg => reduce op maxnan (snd kg)) (runs (combine idx xs))).
+Proof.
+  exists 2%Z, 0%Z, [1; 1]%Z, [Some (-1); Some (-2)].
+  repeat split; try (simpl; lia).
+  - repeat constructor; apply in_int32_small; lia.
+  - rewrite pinned_max_run. cbv [combine runs runs_acc Z.eqb Pos.eqb app map snd reduce nmiss filter is_none
+      length Z.of_nat Z.ltb Z.compare present flat_map reduce_val acc_val Z.leb lmax fold_left].
+    intros E. injection E as E. unfold Rmax in E. destruct (Rle_dec (-1) (-2)); lra.
+Qed.
+
+(* tail: a missing last value (allowed by maxnan) gives 0 *)
+Lemma pinned_tail_run :
+  py_aggregate RN (agg_upd_pinned RN) 3 1 [2; 2]%Z [Some 3; None] = DOk [Some 0].
+Proof.
+  cbv - [Rltb Rplus Rmult Rdiv Rminus Ropp IZR Rinv]. reflexivity.
+Qed.
+
+Theorem pinned_tail_refuted :
+  exists op maxnan idx xs,
+    length idx = length xs /\ (1 <= length xs)%nat /\ Forall in_int32 idx /\ nondecr idx /\
+    py_aggregate RN (agg_upd_pinned RN) op maxnan idx xs <>
+    DOk (map (fun kg => reduce op maxnan (snd kg)) (runs (combine idx xs))).
+Proof.
+  exists 3%Z, 1%Z, [2; 2]%Z, [Some 3; None].
+  repeat split; try (simpl; lia).
+  - repeat constructor; apply in_int32_small; lia.
+  - rewrite pinned_tail_run. cbv [combine runs runs_acc Z.eqb Pos.eqb app map snd reduce nmiss filter is_none
+      length Z.of_nat Pos.of_succ_nat Z.ltb Z.compare Pos.compare Pos.compare_cont present flat_map reduce_val acc_val Z.leb last].
+    intros E. injection E as E. lra.
+Qed.
